@@ -230,6 +230,25 @@ example : canon exFc exOdd (.struct [.nil, .nil, .nil, .nil, .nil, .num (-5), .f
     = .struct [.list [], .bytes [], .map [], .nil, .num 0, .num 0, .float 0, .struct [.nil]] := by
   simp [canon, canonFields, exOdd, isEmpty, isZero, zeroFields, Val.isNil, missingVal, goZero, zeroVals]
 
+/-- instants outside the `int64` nanosecond range are well-typed; `serializer.TimeToUint64` saturates on both
+sides, so 2^63 ns (2262-04-11T23:47:16.854775808Z), 2^64 ns and the year 9999 come back as `math.MaxInt64` ns,
+an instant before 1678 as the epoch — and the decoder reads back exactly what `canon` says. -/
+example : WellTyped exFc (.slice nb .time)
+    (.list [.num (2 ^ 63), .num (2 ^ 64), .num 253402300799000000000, .num (-(2 ^ 63) - 1), .num (2 ^ 63 - 1)]) := by decide
+
+example : ∃ j, mapEncode exFc ⟨true⟩ (.slice nb .time)
+      (.list [.num (2 ^ 63), .num (2 ^ 64), .num 253402300799000000000, .num (-(2 ^ 63) - 1), .num (2 ^ 63 - 1)]) = .ok j ∧
+    mapDecode exFc ⟨true⟩ (.slice nb .time) j =
+      .ok (.list [.num maxNano, .num maxNano, .num maxNano, .num 0, .num (2 ^ 63 - 1)]) := by
+  have h : ∃ j, mapEncode exFc ⟨true⟩ (.slice nb .time)
+      (.list [.num (2 ^ 63), .num (2 ^ 64), .num 253402300799000000000, .num (-(2 ^ 63) - 1), .num (2 ^ 63 - 1)]) = .ok j := by
+    simp [mapEncode, encList, encTime, checkLen, nb, pow2, bind, Except.bind, Except.map, List.mapM_cons, pure, Except.pure]
+  obtain ⟨j, hj⟩ := h
+  refine ⟨j, hj, ?_⟩
+  have := C01_json_roundtrip_canon exFc ⟨true⟩ (fun _ _ => ⟨0x3fdc28f5c28f5c29, by simp [exFc]⟩) _ _ j (by decide) (by decide) hj
+  rw [this]
+  simp [canon, pow2, maxNano]
+
 /-- the hypotheses of `C01_json_key_order_irrelevant` are satisfiable: a document with a nested
 object, both levels permuted. -/
 example : JPerm (.obj [("a", .num 1), ("b", .obj [("x", .str "p"), ("y", .arr [.bool true])])])
